@@ -255,9 +255,11 @@ def pool_for(name):
         return good, bad
     if name == 'data':
         good = [[], [0], [127], [1, 2, 3], T('tuple', [5, 6]), T('bytes', [7, 8]), T('bytearray', [9]),
-                T('range', [0, 4]), T('gen', [1, 2, 3]), T('gen', [])]
+                T('range', [0, 4]), T('gen', [1, 2, 3]), T('gen', []), T('sysexdata', [3, 4]), T('sysexdata', [])]
         bad = [[128], [-1], [1, 128], [1, T('float', 2.0)], [1, '2'], [None], T('gen', [1, 200]), T('gen', [1, '2']),
-               T('tuple', [1, 256]), T('bytes', [1, 200]), 3, None, 'abc', T('float', 1.5), [[1]], [2 ** 70]]
+               T('tuple', [1, 256]), T('bytes', [1, 200]), 3, None, 'abc', T('float', 1.5), [[1]], [2 ** 70],
+               T('sysexdata', [1, 128]), T('sysexdata', [240, 126, 247]), T('sysexdata', [T('float', 1.5)]),
+               T('sysexdata', ['a', 'b']), T('sysexdata', [999])]
         return good, bad
     lo, hi = R.RANGES[name]
     mid = (lo + hi) // 2
